@@ -455,13 +455,18 @@ func (m *model) ruleWaitEnqueue(s *report.Sink) {
 		s.Unk("S20", "Wait|select", m.pos(fn.Pos()), "no select / ctx parameter")
 	} else {
 		var doneArm, finArm *ssa.BasicBlock
+		var doneReg, finReg map[*ssa.BasicBlock]bool
 		other := 0
 		for k, st := range sel.States {
 			switch {
 			case st.Dir == types.RecvOnly && isCtxCall(st.Chan, "Done"):
-				doneArm = selectArmEntry(sel, k)
+				var t *ssa.BasicBlock
+				t, doneArm = selectArmEdge(sel, k)
+				doneReg = edgeRegion(t, 0)
 			case st.Dir == types.RecvOnly && m.isField(st.Chan, m.fFIN):
-				finArm = selectArmEntry(sel, k)
+				var t *ssa.BasicBlock
+				t, finArm = selectArmEdge(sel, k)
+				finReg = edgeRegion(t, 0)
 			default:
 				other++
 			}
@@ -480,8 +485,8 @@ func (m *model) ruleWaitEnqueue(s *report.Sink) {
 			}
 			leaves := m.expandPhi(r.Results[0], r.Block(), 0)
 			for _, lf := range leaves {
-				fromDone := doneArm != nil && (doneArm.Dominates(lf.block) || doneArm == lf.block)
-				fromFin := finArm != nil && (finArm.Dominates(lf.block) || finArm == lf.block)
+				fromDone := doneReg[lf.block]
+				fromFin := finReg[lf.block]
 				switch {
 				case fromDone:
 					nDone++
@@ -886,8 +891,8 @@ var Rules = []report.Rule{
 	{ID: "S2", Floor: 1, Props: []string{"C12", "C01"}, Text: "the worker writes no ScheduledJob field"},
 	{ID: "S3", Floor: 3, Props: []string{"C12", "C07"}, Text: "Scheduler.err is written only by the loop and read only by the loop or by Wait after the finish-channel receive"},
 	{ID: "S4", Floor: 2, Props: []string{"C12"}, Text: "ScheduledJob has no methods and no exported/embedded fields"},
-	{ID: "S5", Floor: 2, Props: []string{"C01", "C02"}, Text: "every insertion into the ready list is dominated by `job.remaining == 0` with no write to remaining in between"},
-	{ID: "S6", Floor: 7, Props: []string{"C01", "C03"}, Text: "the only send of a job to workers sends ready.Front(), is enabled only when one was chosen this iteration, and its arm removes exactly that element; all channel sends of the package are classified"},
+	{ID: "S5", Floor: 2, Props: []string{"C01", "C02", "C19"}, Text: "every insertion into the ready list is dominated by `job.remaining == 0` with no write to remaining in between"},
+	{ID: "S6", Floor: 7, Props: []string{"C01", "C03", "C05"}, Text: "the only send of a job to workers sends ready.Front(), is enabled only when one was chosen this iteration, and its arm removes exactly that element; all channel sends of the package are classified"},
 	{ID: "S7", Floor: 4, Props: []string{"C01", "C05", "C02"}, Text: "remaining is written only as +1 (paired with registration in a not-done dependency's consumer list) and -1 (once per consumer of a finished job, unconditionally)"},
 	{ID: "S8", Floor: 3, Props: []string{"C01", "C08", "C05"}, Text: "the result arm marks the finished job done before branching"},
 	{ID: "S9", Floor: 7, Props: []string{"C03", "C06"}, Text: "the go statements of packages scheduler and cff are exactly: spawner, loop, N workers in a counted loop, one replacement per dying worker; none is reachable from Enqueue, the loop or Wait"},
@@ -906,7 +911,7 @@ var Rules = []report.Rule{
 	{ID: "S22", Floor: 4, Props: []string{"C08", "C01"}, Text: "continue mode: job.err recorded on every failure path; every consumer invalidated; multierr.Append exactly for non-sentinel errors"},
 	{ID: "S23", Floor: 1, Props: []string{"C08", "C01", "C05"}, Text: "a job enqueued after a dependency failed is invalidated and does not wait for it"},
 	{ID: "S24", Floor: 3, Props: []string{"C08"}, Text: "the sentinel is unexported and used only by the worker assignment and the loop's filter"},
-	{ID: "S25", Floor: 8, Props: []string{"C19"}, Text: "every path through every select arm keeps pending = |ready| + waiting + ongoing; counters start at 0"},
+	{ID: "S25", Floor: 8, Props: []string{"C19", "C05", "C06", "C07"}, Text: "every path through every select arm keeps pending = |ready| + waiting + ongoing; counters start at 0 (the completion exit `pending == 0` is only as good as this invariant)"},
 	{ID: "S26", Floor: 5, Props: []string{"C19"}, Text: "State: Pending←pending, Ready←ready.Len(), Waiting←waiting, Concurrency←s.concurrency, IdleWorkers←s.concurrency−ongoing"},
 	{ID: "S27", Floor: 1, Props: []string{"C06", "C19"}, Text: "dispatch is enabled only while ongoing < concurrency (outstanding results fit the result buffer)"},
 	{ID: "S28", Floor: 1, Props: []string{"C19"}, Text: "Emitter.Emit is called only inside the loop body"},
